@@ -56,6 +56,7 @@ class VProc:
         self.idle = 0             # consecutive sleeps without another boundary operation
         self.nops = 0             # boundary operations answered so far
         self.last_sub_before = ""
+        self.deferred = []        # events announced by the process that take effect with its next visible operation
         self.buf = b""
         c2p_r, c2p_w = os.pipe()
         p2c_r, p2c_w = os.pipe()
@@ -153,7 +154,8 @@ class World:
         self.seen_files = {}    # watched file -> (mtime_ns, size, ino)
         self.last_status = {}   # out dir -> status projection
         self.sbatch_plan = dict(scn.get("sbatch_fail", {}))   # batch number (str) -> failing attempts
-        self.squeue_fail = int(scn.get("squeue_fail", 0))     # failing squeue invocations still to inject
+        self.squeue_fail = int(scn.get("squeue_fail", 0))     # failing squeue attempts still to inject
+        self.squeue_skip = int(scn.get("squeue_skip", 0))     # ... after this many successful attempts
         self.faults_armed = {}  # pid -> dict(op=..., n=...)
         self.steps = 0
 
@@ -177,6 +179,11 @@ class World:
         self.ev(e="proc", pid=pid, k=label, host=host, nested=bool(nested), b=self._bnum(batch))
         self._next_request(p)
         return p
+
+    def _flush(self, p):
+        for evd in p.deferred:
+            self.ev(**evd)
+        p.deferred = []
 
     def _bnum(self, hid):
         if hid is None or hid not in self.batches:
@@ -271,7 +278,13 @@ class World:
             d = os.path.dirname(r["path"])
             if m:
                 d = os.path.dirname(d)
-            self.ev(e=name, pid=p.pid, dir=self._dname(d), file=(int(m.group(1)) if m else -1), row=r["row"])
+            evd = dict(e=name, pid=p.pid, dir=self._dname(d), file=(int(m.group(1)) if m else -1), row=r["row"])
+            if name == "append":
+                # the writer announces the row before it takes the file's lock; the announcement belongs to the
+                # visible operation that performs the append (its next step)
+                p.deferred.append(evd)
+            else:
+                self.ev(**evd)
         else:
             self.ev(e="api", pid=p.pid, name=name, data={k: v for k, v in r.items() if k not in ("op", "name")})
 
@@ -376,6 +389,7 @@ class World:
             p = self.proc(move[1])
             if not p.alive:
                 raise HarnessError(f"step of dead process {move}")
+            self._flush(p)
             self._answer(p)
             if p.alive:
                 self._next_request(p)
@@ -543,7 +557,9 @@ class World:
 
     def _squeue(self, p, argv):
         h = self._newh(type="quick", state="done", rc=0, owner=p.pid)
-        if self.squeue_fail > 0:
+        if self.squeue_skip > 0:
+            self.squeue_skip -= 1
+        elif self.squeue_fail > 0:
             self.squeue_fail -= 1
             self.ev(e="squeue", pid=p.pid, ok=False, ans=[])
             return self._reply(p, h=h, rc=1, stdout="", stderr="slurm_load_jobs error: Socket timed out")
@@ -600,6 +616,7 @@ class World:
         """SIGKILL one virtual process (and, since they are its children, its nested commands and jobs)."""
         if not p.alive:
             return
+        self._flush(p)
         at = p.req["op"] + ":" + os.path.basename(p.req.get("path") or "") + \
             (os.path.basename(p.req["argv"][0]) if p.req.get("argv") else "")
         p.reap(kill=True)
@@ -625,6 +642,7 @@ class World:
         self.ev(e="hpc", what=how, id=hid, b=b["b"], active=self._active())
 
     def _on_exit(self, p, code, exc, tb):
+        self._flush(p)
         self.ev(e="exit", pid=p.pid, k=p.label, host=p.host, code=int(code), exc=exc, b=self._bnum(p.batch))
         if self.debug and tb:
             print("TB", p.label, tb, file=sys.__stderr__)
